@@ -252,6 +252,10 @@ def gen_request(rng, endpoint, **over):
       "tikhonov": rng.choice([None, None, round(10 ** rng.uniform(-6, -2), 8)]),
       "task_length": round(rng.uniform(0.15, 0.6), 3) if task_options else None,
     })
+  # sometimes the caller hands ONE hyperparameter dict object for every metric (`[defaults] * num_metrics`)
+  share_hyper = rng.random() < 0.15
+  if share_hyper:
+    hypers = [copy.deepcopy(hypers[0]) for _ in range(m)]
   mean_type = rng.choice(["constant", "constant", "zero", "linear"])
   one_hot_dim = sum(len(c["elements"]) if c["var_type"] == CAT else 1 for c in dspec["components"]) + (1 if task_options else 0)
   if mean_type == "linear" and (n - sum(failures) < 3 * (one_hot_dim + 2) or task_options or layout != "single"
@@ -275,7 +279,7 @@ def gen_request(rng, endpoint, **over):
     "hyperparameters": hypers, "mean_type": mean_type, "parallelism": parallelism, "num_to_sample": num_to_sample,
     "task_options": task_options, "max_simultaneous_af_points": rng.choice([1, 2, 5, 1000]),
     "num_solutions": rng.randint(2, max(2, min(5, n - 1))),
-    "np_seed": np_seed, "py_seed": rng.randrange(2 ** 31),
+    "np_seed": np_seed, "py_seed": rng.randrange(2 ** 31), "share_hyperparameters": share_hyper,
   }
   return spec
 
@@ -322,7 +326,8 @@ def build_params(spec):
   )
   if spec["endpoint"] in ("gp_next", "gp_ei", "search_next", "hyperopt"):
     params["model_info"] = GPModelInfo(
-      hyperparameters=copy.deepcopy(spec["hyperparameters"]),
+      hyperparameters=([copy.deepcopy(spec["hyperparameters"][0])] * m if spec.get("share_hyperparameters") and m
+                       else copy.deepcopy(spec["hyperparameters"])),
       max_simultaneous_af_points=spec["max_simultaneous_af_points"],
       nonzero_mean_info={"mean_type": spec["mean_type"], "poly_indices": None},
       task_selection_strategy="a_priori" if len(tasks) else None,
